@@ -1,0 +1,31 @@
+//go:build verif
+
+package packets
+
+import (
+	"net/netip"
+	"sync/atomic"
+)
+
+// VerifSourceSinkFactory lets the verification harness supply the Source/Sink pair
+// (simulated wire). ok=false falls through to the platform implementation.
+type VerifSourceSinkFactory func(addr netip.Addr, useDriver bool) (SourceSinkHandle, bool, error)
+
+var verifFactory atomic.Pointer[VerifSourceSinkFactory]
+
+// VerifSetSourceSinkFactory installs (or with nil removes) the factory.
+func VerifSetSourceSinkFactory(f VerifSourceSinkFactory) {
+	if f == nil {
+		verifFactory.Store(nil)
+		return
+	}
+	verifFactory.Store(&f)
+}
+
+func verifSourceSink(addr netip.Addr, useDriver bool) (SourceSinkHandle, bool, error) {
+	f := verifFactory.Load()
+	if f == nil {
+		return SourceSinkHandle{}, false, nil
+	}
+	return (*f)(addr, useDriver)
+}
